@@ -18,6 +18,7 @@ From Pnc Require Import CSub.
 From Pnc Require Import Gen_begins.
 From Pnc Require Import Proofs_GenBegins.
 From Pnc Require Import Proofs_GenBeginsRedef.
+From Pnc Require Import Proofs_GenBeginsRedef2.
 Set Printing Width 100.
 Set Printing Depth 100000.
 
@@ -1189,3 +1190,24 @@ Theorem C03_gen_begins_redef_runs :
            |} 0 0 4 4 0 (exr_lay 0 100 512 4) (false :: true :: nil) = true.
 Proof. exact @gen_begins_redef_runs. Qed.
 Print Assumptions C03_gen_begins_redef_runs.
+
+(* the general theorem for the redefinition case (see C06) *)
+Theorem C03_gen_begins_eq_redef :
+  forall (h : Header.hdr) (hm vm ha ra pbr flags sm np OB : Z) (ol : Header.layout)
+           (recs : list bool),
+         Header.h_vars h <> nil ->
+         (z2b sm && (np >? 1)%Z)%bool = false ->
+         begins_guards_redef h hm vm ha ra pbr OB ol recs ->
+         exists (rc : Z) (s' : st_NC_begins),
+           NC_begins_c (c_view_nc_redef2 h hm vm ha ra pbr flags sm np ol recs) (Header.hdr_len h) =
+           FValS rc s' /\
+           match Header.begins h hm vm ha ra (Some (ol, recs)) pbr with
+           | Some lay =>
+               rc = Gen_consts.NC_NOERR /\
+               layout_of_state s' = lay /\
+               NC__numrecs (NC_begins__P_ncp s') =
+               (if z2b (Z.land flags 32768) then 0%Z else Header.h_numrecs h)
+           | None => rc = Gen_consts.NC_EVARSIZE
+           end.
+Proof. exact @gen_begins_eq_redef. Qed.
+Print Assumptions C03_gen_begins_eq_redef.
